@@ -198,6 +198,33 @@ func dischargeAll(obls []*Obligation, timeoutS int, workers int) {
 	}
 	close(ch)
 	wg.Wait()
+	// second chance for goals the solvers gave up on while the machine was saturated: a few at a
+	// time, with three times the time limit. An answer of "sat" is never retried.
+	var again []*Obligation
+	for _, o := range obls {
+		if o.Answer != nil && o.Answer.Verdict == VUnknown {
+			again = append(again, o)
+		}
+	}
+	if len(again) > 0 && len(again) <= 40 {
+		sem := make(chan struct{}, 2)
+		var wg2 sync.WaitGroup
+		for _, o := range again {
+			o := o
+			wg2.Add(1)
+			sem <- struct{}{}
+			go func() {
+				defer wg2.Done()
+				defer func() { <-sem }()
+				a := runQuery(o.query(), 3*timeoutS, true)
+				if a.Verdict != VUnknown {
+					a.Output = "(second attempt) " + a.Output
+					o.Answer = &a
+				}
+			}()
+		}
+		wg2.Wait()
+	}
 }
 
 // ---------------------------------------------------------------- exclusion lists
